@@ -16,6 +16,13 @@ class CannotEval(Exception):
     pass
 
 
+class Record:
+    """A value with named fields (stands for an object whose attributes the rule fixes), e.g. Record(major=8, minor=5)."""
+
+    def __init__(self, **fields):
+        self.fields = fields
+
+
 _CMP = {ast.Eq: operator.eq, ast.NotEq: operator.ne, ast.Lt: operator.lt, ast.LtE: operator.le, ast.Gt: operator.gt, ast.GtE: operator.ge,
         ast.Is: operator.is_, ast.IsNot: operator.is_not, ast.In: lambda a, b: a in b, ast.NotIn: lambda a, b: a not in b}
 _ARITH = {ast.Add: operator.add, ast.Sub: operator.sub, ast.Mult: operator.mul, ast.Div: operator.truediv, ast.Pow: operator.pow, ast.FloorDiv: operator.floordiv, ast.Mod: operator.mod}
@@ -29,6 +36,11 @@ def ev(e: ast.AST, env: dict):
         if e.id in env:
             return env[e.id]
         raise CannotEval(f"unbound name {e.id}")
+    if isinstance(e, ast.Attribute):
+        v = ev(e.value, env)
+        if isinstance(v, Record) and e.attr in v.fields:
+            return v.fields[e.attr]
+        raise CannotEval(f"attribute {u(e)[:60]}")
     if isinstance(e, ast.Subscript):
         v = ev(e.value, env)
         k = ev(e.slice, env)
@@ -76,6 +88,20 @@ def ev(e: ast.AST, env: dict):
         d = dotted(e.func)
         if d == "len" and len(e.args) == 1:
             return len(ev(e.args[0], env))
+        if d in ("str", "float", "int", "abs", "round") and 1 <= len(e.args) <= 2 and not e.keywords:
+            vals = [ev(a, env) for a in e.args]
+            if all(isinstance(v, (int, float, str)) and not isinstance(v, bool) for v in vals):
+                try:
+                    return {"str": str, "float": float, "int": int, "abs": abs, "round": round}[d](*vals)
+                except (ValueError, TypeError) as x:
+                    raise CannotEval(f"{u(e)[:60]}: {type(x).__name__}")
+        if isinstance(e.func, ast.Attribute) and e.func.attr in ("replace", "strip", "lstrip", "rstrip", "lower", "upper", "casefold", "title", "capitalize", "split", "rsplit", "partition",
+                                                                "startswith", "endswith") and not e.keywords:
+            recv = ev(e.func.value, env)
+            vals = [ev(a, env) for a in e.args]
+            if isinstance(recv, str) and all(isinstance(v, (str, int)) for v in vals):
+                r = getattr(recv, e.func.attr)(*vals)
+                return list(r) if isinstance(r, tuple) else r
         if d == "isinstance" and len(e.args) == 2 and dotted(e.args[1]) in _TYPES:
             return isinstance(ev(e.args[0], env), _TYPES[dotted(e.args[1])])
         if isinstance(e.func, ast.Attribute) and e.func.attr == "get" and 1 <= len(e.args) <= 2:
@@ -96,6 +122,22 @@ def ev(e: ast.AST, env: dict):
             return _ARITH[type(e.op)](a, b)
         except (ZeroDivisionError, OverflowError) as x:
             raise CannotEval(f"{u(e)[:60]}: {type(x).__name__}")
+    if isinstance(e, ast.JoinedStr):
+        out = []
+        for v in e.values:
+            if isinstance(v, ast.Constant):
+                out.append(str(v.value))
+            elif isinstance(v, ast.FormattedValue):
+                val = ev(v.value, env)
+                spec = ev(v.format_spec, env) if v.format_spec is not None else ""
+                if v.conversion not in (-1, 115, 114) or not isinstance(val, (int, float, str)):
+                    raise CannotEval(f"{u(e)[:60]}: conversion / value type")
+                val = repr(val) if v.conversion == 114 else (str(val) if v.conversion == 115 else val)
+                try:
+                    out.append(format(val, spec))
+                except (ValueError, TypeError) as x:
+                    raise CannotEval(f"{u(e)[:60]}: {type(x).__name__}")
+        return "".join(out)
     if isinstance(e, ast.NamedExpr):
         v = ev(e.value, env)
         env[e.target.id] = v
